@@ -757,7 +757,7 @@ def unmapped_cases(r, d, fmt, fields):
             e = L[i]
             off, w = e[0], e[1]
             en = e[2] if len(e) > 2 else "<"
-            for v in (UNMAPPED if w >= 4 else [0xffff]):
+            for v in ((UNMAPPED if lab.split('.')[0].rstrip('0123456789') in ('import', 'delay', 'export', 'resource') else UNMAPPED[:1]) if w >= 4 else [0xffff]):
                 top = (1 << (8 * w)) - 1
                 vv = v & top if w <= 4 else (v if r.random() < 0.5 else (1 << 63) + v)
                 out.append(("%s%d:%d:%x" % ("W" if en == "<" else "B", off, w, vv), "unmapped-entry:" + lab.split(".")[0].rstrip("0123456789")))
@@ -868,10 +868,10 @@ def dotnet_table_cases(r, d, per_table=10, only=None):
         if n >= 2 and (only is None or name in only):
             made = 0
             for i in sorted({1, n // 2 if n // 2 >= 1 else 1, n - 1}):
-                for (co, w, c) in t["cols"]:
-                    for v in vals(c, w)[:4]:
+                for (co, w, c) in sorted(t["cols"], key=lambda x: (0 if x[2] in ("S", "B", "G") else 1 if x[2][0] in "CT" else 2)):   # heap indices first
+                    for v in vals(c, w)[:3]:
                         for (src, dst) in ((i - 1, i), (i, i - 1)):
-                            if made >= per_table * 6: break
+                            if made >= per_table * 8: break
                             so, do = t["off"] + src * t["size"], t["off"] + dst * t["size"]
                             row = bytearray(d[so:so + t["size"]])
                             row[co:co + w] = (v & ((1 << (8 * w)) - 1)).to_bytes(w, "little")
